@@ -74,6 +74,7 @@ structure World where
 def userLeaf : ProcKind → List Leaf
   | .userComb _ out e => [{ dom := none, prog := [.assign (.sig out) e], wrappers := [] }]
   | .userSync d _ out e => [{ dom := some d, prog := [.assign (.sig out) e], wrappers := [] }]
+  | .userSyncPart d _ out lo hi e => [{ dom := some d, prog := [.assign (.slice (.sig out) lo hi) e], wrappers := [] }]
   | _ => []
 
 /-- nothing drives any bit of signal `i` -/
@@ -241,7 +242,9 @@ def specRun (D : SpecDesign) (users clocks : List ProcKind) (scripts : List (Lis
   let D' : SpecDesign := { D with leaves := D.leaves ++ users.flatMap userLeaf }
   let cl := clocks.filterMap fun k => match k with | .clock s ph pe => some (s, ph, pe) | _ => none
   let W : World := { D := D', clocks := cl, scripts }
-  if covered W then
+  -- a process that enters its `changed()` loop late is not a circuit: no event-level meaning is given to it
+  let usersCovered := users.all fun k => match k with | .userLateComb .. => false | _ => true
+  if covered W && usersCovered then
     let s0 : SSt := { env := specEvent D' D'.inits [], ks := cl.map fun _ => 0, tbs := scripts.map fun _ => {} }
     let s := specLoop W deadline fuel s0
     some (s.obs.reverse, s.env)
